@@ -177,6 +177,27 @@ def fmtCall (c : CallStmt) (toks : Slice) : R :=
   | .error e => .error e
   | .ok as => .ok (c.name.value ++ ['('] ++ joinSep (chars ", ") as ++ chars ");\n")
 
+/-- `impl Format for IfStatement`, the assembly: `cond` first, then the branches (the then-branch ends the line
+    when there is no `else`, otherwise it ends with a blank), then the leading comments of the statement's tokens. -/
+def ifAssemble (cond : R) (bNl bSp : R) (el : Option (Bool × R)) (sl : Except Panic Slice) : R :=
+  match cond with
+  | .error p => .error p
+  | .ok cond =>
+    let body : R := match el with
+      | none => bNl.map (fun b => chars "if (" ++ cond ++ [')'] ++ b)
+      | some (true, ei) =>
+        match bSp with
+        | .error p => .error p
+        | .ok b => ei.map (fun ei => chars "if (" ++ cond ++ [')'] ++ b ++ chars "else " ++ ei)
+      | some (false, eb) =>
+        match bSp with
+        | .error p => .error p
+        | .ok b => eb.map (fun eb => chars "if (" ++ cond ++ [')'] ++ b ++ chars "else" ++ eb)
+    match body, sl with
+    | .ok s, .ok sl => .ok (addLeadingComments s sl.toList)
+    | .error p, _ => .error p
+    | _, .error p => .error p
+
 mutual
   def fmtStmt (o : Options) (toks : Slice) : Stmt → R
     | .assign a =>
@@ -200,27 +221,17 @@ mutual
       | .error e, _ => .error e
       | _, .error e => .error e
     | .ifS c t e i =>
-      match fmtOptRefExpr toks c with
-      | .error p => .error p
-      | .ok cond =>
-        let body : R := match e with
-          | .none =>
-            (fmtBranch o toks t '\n').map (fun b => chars "if (" ++ cond ++ [')'] ++ b)
-          | .some (.ifS c2 t2 e2 i2) off =>
-            match fmtBranch o toks t ' ' with
+      -- all recursive calls first (pure values), the assembly is `ifAssemble` (same precedence of failures)
+      let bNl := fmtBranch o toks t '\n'
+      let bSp := fmtBranch o toks t ' '
+      let el : Option (Bool × R) := match e with
+        | .none => none
+        | .some (.ifS c2 t2 e2 i2) off =>
+          some (true, match from' toks off with
             | .error p => .error p
-            | .ok b =>
-              match from' toks off with
-              | .error p => .error p
-              | .ok sl => (fmtStmt o sl (.ifS c2 t2 e2 i2)).map (fun ei => chars "if (" ++ cond ++ [')'] ++ b ++ chars "else " ++ ei)
-          | .some s off =>
-            match fmtBranch o toks t ' ' with
-            | .error p => .error p
-            | .ok b => (fmtBranch o toks (.some s off) '\n').map (fun eb => chars "if (" ++ cond ++ [')'] ++ b ++ chars "else" ++ eb)
-        match body, sub toks i.range with
-        | .ok s, .ok sl => .ok (addLeadingComments s sl.toList)
-        | .error p, _ => .error p
-        | _, .error p => .error p
+            | .ok sl => fmtStmt o sl (.ifS c2 t2 e2 i2))
+        | .some s off => some (false, fmtBranch o toks (.some s off) '\n')
+      ifAssemble (fmtOptRefExpr toks c) bNl bSp el (sub toks i.range)
     | .whileS c b i =>
       match fmtOptRefExpr toks c with
       | .error p => .error p
